@@ -22,6 +22,17 @@ fn b(data: u8, maint: u8, snap: u8, reopen: u8) -> Budget {
         maint,
         snap,
         reopen,
+        special: 1,
+    }
+}
+
+fn bs(data: u8, maint: u8, snap: u8, reopen: u8, special: u8) -> Budget {
+    Budget {
+        data,
+        maint,
+        snap,
+        reopen,
+        special,
     }
 }
 
@@ -292,6 +303,145 @@ pub fn scenarios(prop: &str, tier: &str) -> Vec<Arc<dyn Scenario>> {
                     OracleKind::C04,
                 ));
             }
+        }
+        "C03" => {
+            let mp = |ks: &[u8]| Op::MultiPut { ks: ks.to_vec() };
+            let md = |ks: &[u8]| Op::MultiDel { ks: ks.to_vec() };
+            let mut a = Alphabet::default();
+            a.extra = vec![
+                mp(&[0, 1, 2, 3, 4, 5]),
+                mp(&[0, 2, 4]),
+                mp(&[1, 3, 5]),
+                mp(&[1, 2]),
+                md(&[0, 5]),
+                md(&[1, 2]),
+                md(&[3]),
+            ];
+            a.rotate = true;
+            a.flush = true;
+            a.major = vec![1, u64::MAX];
+            a.leveled = vec![0];
+            a.wms = vec![Wm::Zero, Wm::Tight];
+            a.snap = true;
+            let keys = crate::scanmc::c03_keys();
+            let mut c2 = TreeCfg::small(keys.clone());
+            c2.block_size = 4096;
+            c2.restart_interval = 2;
+            c2.index_partitioning = true;
+            if quick {
+                a.extra = vec![mp(&[0, 1, 2, 3, 4, 5]), mp(&[1, 3, 5]), md(&[0, 5]), md(&[1, 2])];
+                v.push(Arc::new(crate::scanmc::C03::new(
+                    "C03-b1", TreeCfg::small(keys.clone()), a.clone(), b(2, 2, 1, 0), vec![vec![]], false)));
+                v.push(Arc::new(crate::scanmc::C03::new(
+                    "C03-b4096", c2, a.clone(), b(2, 1, 1, 0), vec![vec![]], false)));
+            } else {
+                v.push(Arc::new(crate::scanmc::C03::new(
+                    "C03-b1", TreeCfg::small(keys.clone()), a.clone(), b(3, 3, 1, 0), vec![vec![]], true)));
+                v.push(Arc::new(crate::scanmc::C03::new(
+                    "C03-b4096", c2, a.clone(), b(3, 2, 1, 0), vec![vec![]], true)));
+            }
+        }
+        "C15" => {
+            let keys: Vec<Vec<u8>> = vec![b"a".to_vec(), b"b".to_vec(), b"c".to_vec(), b"d".to_vec()];
+            let mp = |ks: &[u8]| Op::MultiPut { ks: ks.to_vec() };
+            let md = |ks: &[u8]| Op::MultiDel { ks: ks.to_vec() };
+            let fl = Op::Flush { w: Wm::Zero };
+            let mj = Op::Major { w: Wm::Zero, target: 1 };
+            let seeds: Vec<Vec<Op>> = vec![
+                vec![],
+                vec![mp(&[0, 1, 2, 3])],
+                vec![mp(&[0, 1, 2, 3]), fl.clone()],
+                vec![mp(&[0, 1, 2, 3]), fl.clone(), mj.clone()],
+                vec![mp(&[0, 1]), fl.clone(), mp(&[2, 3]), fl.clone()],
+                vec![mp(&[0, 1, 2, 3]), fl.clone(), mp(&[1, 2]), fl.clone()],
+                vec![mp(&[0, 1, 2, 3]), fl.clone(), mj.clone(), mp(&[1, 2]), fl.clone()],
+                vec![mp(&[0, 1, 2, 3]), fl.clone(), mj.clone(), md(&[1]), fl.clone()],
+                vec![mp(&[0, 1, 2, 3]), fl.clone(), mp(&[0, 3])],
+            ];
+            let pts: Vec<Vec<u8>> = if quick {
+                vec![b"a".to_vec(), b"b".to_vec(), b"b0".to_vec(), b"d".to_vec()]
+            } else {
+                vec![vec![], b"a".to_vec(), b"a0".to_vec(), b"b".to_vec(), b"c".to_vec(), b"d".to_vec(), b"e".to_vec()]
+            };
+            let mut bnds = vec![Bnd::Unb];
+            for p in &pts {
+                bnds.push(Bnd::Inc(p.clone()));
+                bnds.push(Bnd::Exc(p.clone()));
+            }
+            let mut a = Alphabet::default();
+            a.extra = vec![mp(&[0, 1, 2, 3]), mp(&[1, 2]), md(&[1]), Op::Put { k: 0, big: false }, Op::Put { k: 3, big: false }];
+            for lo in &bnds {
+                for hi in &bnds {
+                    a.drop_ranges.push((lo.clone(), hi.clone()));
+                }
+            }
+            a.clear = true;
+            a.snap = true;
+            a.no_unsnap = true;
+            a.reopen = true;
+            a.wms = vec![Wm::Zero, Wm::Tight];
+            if quick {
+                v.push(std("C15-std", TreeCfg::small(keys.clone()), a.clone(), bs(1, 0, 1, 1, 1), seeds.clone(), OracleKind::C15));
+            } else {
+                a.flush = true;
+                a.major = vec![1];
+                a.leveled = vec![0];
+                a.wms = vec![Wm::Tight];
+                v.push(std("C15-std", TreeCfg::small(keys.clone()), a.clone(), bs(1, 1, 1, 1, 1), seeds.clone(), OracleKind::C15));
+                let mut ab = a.clone();
+                ab.drop_ranges = ab.drop_ranges.into_iter().step_by(3).collect();
+                v.push(std("C15-blob", TreeCfg::small(keys.clone()).with_blob(1), ab, bs(1, 1, 1, 1, 1), seeds.clone(), OracleKind::C15));
+            }
+        }
+        "C17" => {
+            use crate::cfilter::ALL_VERDICTS;
+            let mut a = Alphabet::core();
+            a.batch = false;
+            a.snap = true;
+            a.no_unsnap = true;
+            a.movedown = vec![];
+            a.pulldown = vec![(0, 1)];
+            a.major = vec![1];
+            a.flush_sealed = false;
+            a.rotate = false;
+            a.wms = vec![Wm::Zero, Wm::Tight];
+            let mut maps = vec![];
+            for va in ALL_VERDICTS {
+                for vb in ALL_VERDICTS {
+                    maps.push(vec![va, vb]);
+                }
+            }
+            let maps: Vec<_> = if quick { maps.into_iter().step_by(5).collect() } else { maps };
+            for (i, m) in maps.iter().enumerate() {
+                let mut c = TreeCfg::small(keys_ab());
+                c.filter_verdicts = Some(m.clone());
+                let bd = if quick { bs(2, 2, 1, 0, 0) } else { bs(3, 2, 1, 1, 0) };
+                v.push(std(&format!("C17-std-{:?}-{:?}", m[0], m[1]), c.clone(), a.clone(), bd, seeds_upto(1), OracleKind::C17));
+                if !quick || i % 2 == 0 {
+                    let mut cb = c.clone().with_blob(16);
+                    cb.filter_verdicts = Some(m.clone());
+                    let mut ab = a.clone();
+                    ab.put_big = true;
+                    let bd = if quick { bs(2, 1, 1, 0, 0) } else { bs(2, 2, 1, 1, 0) };
+                    v.push(std(&format!("C17-blob-{:?}-{:?}", m[0], m[1]), cb, ab, bd, seeds_upto(1), OracleKind::C17));
+                }
+            }
+        }
+        "C19" => {
+            let keys: Vec<Vec<u8>> = (0..5).map(|i| format!("k{i:02}").into_bytes()).collect();
+            let mut a = Alphabet::default();
+            a.pnext = true;
+            a.flush = true;
+            a.wms = vec![Wm::Tight];
+            a.ticks = vec![1, 10];
+            a.fifo_ttls = if quick { vec![None, Some(5)] } else { vec![None, Some(0), Some(5), Some(1000)] };
+            a.reopen = true;
+            let bd = if quick { bs(3, 4, 0, 1, 1) } else { bs(4, 6, 0, 1, 2) };
+            v.push(std("C19-std", TreeCfg::small(keys.clone()), a.clone(), bd, vec![vec![]], OracleKind::C19));
+            let mut ab = a.clone();
+            ab.pnext_big = true;
+            let bd = if quick { bs(2, 3, 0, 1, 1) } else { bs(3, 5, 0, 1, 2) };
+            v.push(std("C19-blob", TreeCfg::small(keys.clone()).with_blob(16), ab, bd, vec![vec![]], OracleKind::C19));
         }
         "C13" => {
             let mut a = Alphabet::core();
